@@ -9,8 +9,8 @@
 //        form_drv urlexh  <maxlen>                     urlencoded bodies over {a = & + % 4}
 //        form_drv rand    <count> <maxpart> <smallpct> random part lists / limits / filters / cuts
 //        form_drv seeds                                hand-written regression inputs
-// Bodies the code is known to treat specially are routed to side files so that a known defect
-// does not block the validation of everything else:  $VERIF_OUT.hl  (a delimiter followed by an
+// Two input classes are routed to side files so that a defect in their handling (both were defects of
+// the pinned snapshot, since fixed) cannot block the validation of everything else:  $VERIF_OUT.hl  (a delimiter followed by an
 // empty header block), $VERIF_OUT.mal (urlencoded bodies the code itself classifies as malformed).
 #include "common/vtrace.h"
 #include <cppcms/service.h>
